@@ -84,6 +84,17 @@ func main() {
 		os.Exit(check(os.Args[2:]))
 	case "thorough":
 		os.Exit(check(append([]string{"-tier", "thorough"}, os.Args[2:]...)))
+	case "ssa":
+		p, err := load.Load(load.Config{Dir: "/repo"})
+		if err != nil {
+			fmt.Fprintln(os.Stderr, err)
+			os.Exit(2)
+		}
+		for _, fn := range p.LibFuncs {
+			if len(os.Args) > 2 && p.Name(fn) == os.Args[2] {
+				fn.WriteTo(os.Stdout)
+			}
+		}
 	case "own":
 		fs := flag.NewFlagSet("own", flag.ExitOnError)
 		repo := fs.String("repo", "/repo", "repository root")
